@@ -559,6 +559,15 @@ def method_call(eng, recv, recv_node, name, node, st):
             _check_alias(eng, recv_node, st)
             eng.assign(recv_node, eng.list_append(recv, args[0]), st, True)
             return NONE
+        if name == "extend" and len(args) == 1:
+            other = args[0]
+            if isinstance(other, VGen):
+                other = eng.materialize(other, st)
+            if not isinstance(other, VList):
+                raise Unsupported("list.extend(%r)" % (other,))
+            _check_alias(eng, recv_node, st)
+            eng.assign(recv_node, eng.list_concat(recv, other), st, True)
+            return NONE
         if name == "join" and recv.is_str:
             return str_join(eng, recv, args[0], st)
         if name == "pop" and not args:
